@@ -955,7 +955,7 @@ fn fraction(n: int)->Fraction{
 
 fn fraction(n: int, d: int)->Fraction{
     let g = gcd(n, d);
-    Fraction(trunc((n/g)/sign(d)), trunc(abs(d)/g))
+    Fraction(div_floor(n, g*sign(d)), div_floor(abs(d), g))
 }
 
 fn fraction(f: float)->Fraction{
